@@ -408,6 +408,22 @@ func (l *queue) Truncate() error {
 	return l.head.truncate()
 }
 
+// TrimExhaustedHead moves on to the next segment if the head segment has been
+// read to its end. Unlike Advance it never moves the head position, so a block
+// appended since the caller saw the end of the queue stays the current block.
+func (l *queue) TrimExhaustedHead() error {
+	l.mu.Lock()
+	defer l.mu.Unlock()
+	if l.head == nil {
+		return ErrNotOpen
+	}
+
+	if l.head.exhausted() {
+		return l.trimHead()
+	}
+	return nil
+}
+
 // Advance moves the head point to the next byte slice in the queue
 func (l *queue) Advance() error {
 	l.mu.Lock()
@@ -744,6 +760,13 @@ func (l *segment) close() error {
 	}
 	l.file = nil
 	return nil
+}
+
+// exhausted returns true if every block written to the segment file has been read.
+func (l *segment) exhausted() bool {
+	l.mu.RLock()
+	defer l.mu.RUnlock()
+	return l.pos == l.size-footerSize
 }
 
 // empty returns true if the segment has no unread block, written or buffered
